@@ -223,7 +223,7 @@ func emitCardDec(o *Out, doc string) {
 	h := &carddav.Handler{Backend: b}
 	res := guard(func() string {
 		req := httptest.NewRequest("REPORT", "http://example.com/u/ab/a/", strings.NewReader(doc))
-		req.Header.Set("Content-Type", "application/xml; charset=utf-8")
+		req.Header.Set("Content-Type", xmlCTSpelling(len(doc)))
 		rec := httptest.NewRecorder()
 		h.ServeHTTP(rec, req)
 		code := rec.Result().StatusCode
@@ -343,7 +343,7 @@ func emitCardMg(o *Out, r *RNG, reqPath string, mg *carddav.AddressBookMultiGet)
 	_ = bytes.NewReader
 }
 
-var cwTexts = []string{"", "a", " lead", "trail ", "a b", "<&>", "é", "x@y.z", "\"q\"", "a\nb", "]]>"}
+var cwTexts = []string{"", "a", " lead", "trail ", "a b", "<&>", "é", "x@y.z", "\"q\"", "a\nb", "]]>", "\r", "Main St 1\r\nSpringfield", "trailing\r", "\ttab", "nel\u0085ls\u2028", "&amp;"}
 var cwNames = []string{"FN", "EMAIL", "TEL", "X-é", "N", ""}
 
 func randCardWireQuery(r *RNG, valid bool) *carddav.AddressBookQuery {
